@@ -1524,6 +1524,44 @@ func (g *c17Gen) dollar(d *c17Doc) {
 	}
 }
 
+// c17RegressionSections: fixed sections that every tier runs.
+//
+// R1 (thorough seed 15840, section 1969): an inner struct field with `,inherit` whose key (WEIGHT) equals, up to case, the
+// key of a field of an ENCLOSING struct (weight) reached through an embedded struct; the generator hoisted the inner
+// field's value to the top level, so the document holds "WEIGHT" (an object) and "weight" (a string): two keys
+// colliding up to case, loaded through the FILE-level API.  toLowerCaseKeyMap walks the keys in ascending order, the
+// later one ("weight", the string) wins, the inherited struct then finds a string: an error in all three formats.
+func c17RegressionSections() []verifh.Section {
+	ty := "{Port:port:-=%s;Ratio:ratio:o=u16;Opts::e={Name::-=*{Name:name:i=*{Port:port:is!d12=s};" +
+		"Weight:WEIGHT:i={Opts:opts:o!d12!vC17EUNSET=s;Age:age:o=s;Ratio:ratio:-=s}}};Weight:weight:s!ddflt!vC17E_5=s}"
+	docs := []string{
+		`{"WEIGHT":{"ratio":"${C17V}","opts":"${C17V}"},"weight":"${C17V}${C17V}","port":{},"Name":{"port":"${C17V}${C17V}","name":{}}}`,
+		// the neighbours: the object under the lower-case key, no collision, the collision one level down, three spellings
+		`{"weight":{"ratio":"a","opts":"b"},"WEIGHT":"x1","port":{},"Name":{"port":"p","name":{}}}`,
+		`{"WEIGHT":{"ratio":"a","opts":"${C17V}"},"port":{},"Name":{"port":"p","name":{}}}`,
+		`{"weight":"w","port":{},"Name":{"port":"p","name":{},"WEIGHT":{"ratio":"a"},"weight":{"ratio":"b"}}}`,
+		`{"Weight":{"ratio":"c"},"WEIGHT":{"ratio":"a"},"weight":{"ratio":"b"},"port":{},"Name":{"port":"p","name":{}}}`,
+		`{"port":{"a":"1"},"PORT":{"b":"2"},"Name":{"port":"p","name":{},"WEIGHT":{"ratio":"a"}},"weight":"w"}`,
+	}
+	ops := []string{"type " + ty}
+	exts := []string{".JSON", ".yaml", ".toml", ".json", ".yml", ".TOML"}
+	apis := []string{"MustLoad", "Load", "LoadConfig", "Bytes", "Load", "MustLoad"}
+	for i, d := range docs {
+		for k := 0; k < 3; k++ {
+			q := (i + k) % len(exts)
+			env := (i + k) % 2
+			if apis[q] == "Bytes" {
+				env = 0
+			}
+			ops = append(ops, fmt.Sprintf("fload %s %d %s %d %s", exts[q], env, apis[q], (5*i+3*k)%16, d))
+		}
+		ops = append(ops, fmt.Sprintf("cload %d %s", (7*i)%16, d))
+		ops = append(ops, fmt.Sprintf("load %d %s -", (3*i)%16, d))
+	}
+	ops = append(ops, "filldef", ops[1])
+	return []verifh.Section{{Cfg: "kind=load", Ops: ops}}
+}
+
 func c17GenSections(r *verifh.Rng) []verifh.Section {
 	var secs []verifh.Section
 	nsec := verifh.Scale(200, 1300)
@@ -1638,6 +1676,10 @@ func c17GenSections(r *verifh.Rng) []verifh.Section {
 			for d.kind != "obj" {
 				d = g.docFor(t, 0, false)
 			}
+			if g.r.Chance(1, 4) {
+				// keys colliding up to case also through the file-level API (the sorted walk of toLowerCaseKeyMap decides)
+				g.collide(t, d)
+			}
 			g.dollar(d)
 			api := g.r.PickS("Load", "LoadConfig", "MustLoad", "Load", "Bytes")
 			env := 0
@@ -1690,6 +1732,7 @@ func c17GenSections(r *verifh.Rng) []verifh.Section {
 		}
 		secs = append(secs, verifh.Section{Cfg: "kind=load", Ops: ops})
 	}
+	secs = append(secs, c17RegressionSections()...)
 	secs = append(secs, verifh.Section{Cfg: "kind=f32", Ops: []string{"f32 16777217.0000000005", "f32 33554435.000000001",
 		"f32 1.5", "f32 16777217", "f32 0.1", "f32 340282350000000000000000000000000000000",
 		"f32 340282360000000000000000000000000000000", "f32 -16777217.0000000005", "f32 1e39", "f32 8388609.50000000001"}})
